@@ -422,6 +422,8 @@ def main():
             # property that produced it, so a failing assertion whose input coincides with a cover witness
             # appears under the cover's label: try every tape, failed-assertion ones first.
             cands = sorted(tapes, key=lambda t: t["class"] == "cover")
+            # last resort (e.g. a harness whose only draws Kani did not print): the all-zero tape
+            cands.append({"class": "fallback", "desc": "all-zero tape", "tape": []})
             seen = set()
             got_any = False
             for t in cands:
